@@ -377,7 +377,7 @@ class FuncTx:
             if l.strip():
                 if pending is not None:
                     pending+=' '+l.strip()
-                    if l.strip()==']': blocks[label].append(pending); pending=None
+                    if l.strip().startswith(']'): blocks[label].append(re.sub(r'\]\s*,\s*!.*$', ']', pending)); pending=None   # the closing bracket may carry metadata (', !llvm.loop !N')
                     continue
                 if l.strip().startswith('switch ') and not l.rstrip().endswith(']'):
                     pending=l.strip(); continue
